@@ -704,6 +704,25 @@ func (d *driver) serveInternal(k int) bool {
 	return true
 }
 
+// answer one pending heartbeat of generation k with ok
+func (d *driver) serveInternalHB(k int) bool {
+	g := d.gens[k]
+	c := d.g.peek(func(x *call) bool { return x.api == "hb" && x.gen == g.wireID })
+	if c == nil {
+		return false
+	}
+	d.g.take(c)
+	for i, f := range d.fns {
+		if f.gen == k && f.kind == 'h' {
+			d.lab("HB:" + hx(i) + ":ok")
+			d.ob("h" + hx(d.byWire[c.gen]) + "." + hx(i) + "." + memberTok(c.member))
+		}
+	}
+	c.reply <- reply{}
+	d.feats["heartbeat"] = true
+	return true
+}
+
 // generation k has ended (done closed): its heartbeat and watchers leave on ctx.Done();
 // wait until they all have, answering whatever they still ask the coordinator.
 func (d *driver) drainInternal(k int) {
@@ -920,6 +939,17 @@ func (d *driver) recvNext(n int, want string) {
 		d.ob("N" + hx(n) + "g" + hx(k))
 		d.gens[k].ptr = res.gen
 		d.gens[k].pub = true
+		{
+			// what happened to the generation before it was handed out could not be observed:
+			// catch up with it now
+			g := d.gens[k]
+			waitFor("published generation to reach the expected accounting state", func() bool {
+				st := res.gen.VerifState()
+				// (its heartbeat / watchers may already have left on ctx.Done(); they are
+				// accounted for when the driver drains them)
+				return st.Closed == g.closed && st.Routines <= g.routines && (g.closed || st.Routines == g.routines)
+			})
+		}
 		if want == "gen" {
 			d.lab("NG:" + hx(n))
 			d.pc = "wait"
@@ -1038,21 +1068,22 @@ func (d *driver) hbFail(k int) {
 
 func (d *driver) watcherEvent(k int) {
 	g := d.gens[k]
-	c := d.g.peek(func(x *call) bool { return x.api == "readparts" })
-	if c == nil || d.pc == "join" {
+	if d.pc == "join" {
 		return
 	}
-	idx := -1
+	var cands []int
 	for i, f := range d.fns {
-		if f.gen == k && f.kind == 'w' && f.running && len(c.topics) == 1 && f.topic == c.topics[0] {
-			idx = i
+		if f.gen == k && f.kind == 'w' && f.running {
+			cands = append(cands, i)
 		}
 	}
-	if idx < 0 {
+	if len(cands) == 0 {
 		return
 	}
+	idx := cands[d.r.Intn(len(cands))]
 	f := d.fns[idx]
-	d.g.take(c)
+	// the watcher asks for the partitions when it starts and at every tick
+	c := d.await("readparts", func(x *call) bool { return len(x.topics) == 1 && x.topics[0] == f.topic })
 	exits := false
 	if !f.init {
 		if d.r.Intn(3) == 0 {
@@ -1278,7 +1309,19 @@ func runE2E(r *rand.Rand, forced string) {
 				if d.nwatch > 0 {
 					acts = append(acts, func() { d.watcherEvent(k) }, func() { d.watcherEvent(k) })
 				}
-				acts = append(acts, func() { d.serveInternal(k) })
+				acts = append(acts, func() {
+					// a heartbeat tick answered ok
+					g := d.gens[k]
+					for _, f := range d.fns {
+						if f.gen == k && f.kind == 'h' && f.running {
+							waitFor("heartbeat request", func() bool {
+								return d.g.peek(func(x *call) bool { return x.api == "hb" && x.gen == g.wireID }) != nil
+							})
+							for !d.serveInternalHB(k) {
+							}
+						}
+					}
+				})
 			}
 			if len(acts) == 0 {
 				break
